@@ -106,8 +106,8 @@ class Closure:
 
 
 class RepoFunction:
-    def __init__(self, module, name, node=None, cls=None):
-        self.module, self.name, self.node, self.cls = module, name, node, cls
+    def __init__(self, module, name, node=None, cls=None, receiver=None):
+        self.module, self.name, self.node, self.cls, self.receiver = module, name, node, cls, receiver
 
     @property
     def qualname(self):
@@ -287,6 +287,10 @@ class Exec:
             ty = c.arg_types.get(p)
             if ty is None:
                 raise EngineError("contract of %s gives no type for parameter %r" % (self.fnname, p))
+            if isinstance(ty, str) and ty.startswith("obj["):
+                target = ty[4:-1]
+                st.locals[p] = c.make_self(self, st, facts, c.registry.class_fields(target), target, p)
+                continue
             st.locals[p] = fresh(parse_type(ty) if isinstance(ty, str) else ty, p, (), facts)
         for f in facts:
             if isinstance(f, tuple):
